@@ -1,4 +1,4 @@
-CONSTANTS Family = "seq"  MaxOps = 5  Bug = ""  Emit = TRUE
+CONSTANTS Family = "seq"  MaxOps = 5  Bug = ""  Emit = TRUE  Wide = FALSE
 CONSTANT Codes <- MCCodesQuick
 INIT Init
 NEXT Next
